@@ -67,11 +67,15 @@ def universes(
     dims = []
     for k, (l, ln) in enumerate(zip(letters, lens)):
         kind = draw(st.sampled_from(list(kinds)))
+        its = items_for(l, k, ln, kind)
+        if ln > 2 and draw(st.booleans()):
+            # items need not be listed in sorted order (consecutive ints in a shuffled order included)
+            its = list(draw(st.permutations(its)))
         dims.append(
             {
                 "letter": l,
                 "name": NAMES.get(l, f"Dim {l}"),
-                "items": items_for(l, k, ln, kind),
+                "items": its,
                 "dtype": kind_dtype(kind),
             }
         )
